@@ -59,6 +59,7 @@ func (u *Unit) call(f *Frame, st *State, cc *ssa.CallCommon, res ssa.Value, pos 
 		}
 	}
 	key := u.ctx.fullKey(callee)
+	u.callSiteObligations(f, st, callee, key, args, pos)
 	if r, ok := u.intrinsic(f, st, key, callee, args, resTy, pos); ok {
 		return r
 	}
@@ -790,4 +791,39 @@ func literalLen(t string) (int, bool) {
 		return 0, false
 	}
 	return n, true
+}
+
+// callSiteObligations: wiring obligations declared by the function under contract for calls it makes.
+func (u *Unit) callSiteObligations(f *Frame, st *State, callee *ssa.Function, key string, args []Val, pos token.Pos) {
+	if f.depth != 0 || f.pure || u.con == nil || len(u.con.CallSites) == 0 || f.fn != u.fn {
+		return
+	}
+	short := callee.Name()
+	lk := ""
+	if callee.Pkg != nil {
+		lk = u.ctx.localKey(callee)
+	}
+	for _, cs := range u.con.CallSites {
+		if cs.Callee != short && cs.Callee != lk && cs.Callee != key {
+			continue
+		}
+		env := u.loopEnv(f, st, f.fn, -1)
+		vars := map[string]Val{}
+		for k, v := range env.vars {
+			vars[k] = v
+		}
+		for i, p := range callee.Params {
+			if i < len(args) && p.Name() != "" && p.Name() != "_" {
+				vars["arg_"+p.Name()] = args[i]
+				if _, clash := vars[p.Name()]; !clash {
+					vars[p.Name()] = args[i]
+				}
+			}
+		}
+		for i, a := range args {
+			vars[fmt.Sprintf("arg%d", i)] = a
+		}
+		env.vars = vars
+		u.oblige(f, st, "callsite", short+":"+cs.Clause.label(), env.boolExpr(cs.Clause.Expr), pos)
+	}
 }
